@@ -34,3 +34,5 @@ def run(ctx):
     S.r02_3_admission(ctx, 'R13.4')
     S.r03_8_whole_node(ctx, 'R13.5')
     S.r01_4_retag(ctx, 'R13.6')
+    from . import round3 as R3
+    R3.r01_10_tree_untouched(ctx, 'R13.7')
